@@ -16,7 +16,11 @@ func resetEnvModels() {
 	codecSeq = 0
 	resetBadger()
 	hookFns = map[string]value{}
+	grpcConnTarget = map[*value]string{}
 }
+
+// grpcConnTarget: dial target of every modelled *grpc.ClientConn
+var grpcConnTarget map[*value]string
 
 // hookFns: Go function values registered by the harness (verifrt.Hook) that
 // environment stubs call back into, e.g. the factory of the raft node returned
